@@ -383,4 +383,3 @@ Proof.
   cbn [app length]. rewrite <- app_assoc. reflexivity.
 Qed.
 
-Print Assumptions strict_load_stream.
